@@ -52,6 +52,11 @@ func At(ll orb.Point, z Zoom) Tile {
 		Z: z,
 	}
 
+	// the antimeridian, lng == 180, belongs to the last column of tiles
+	if max := uint32(1) << uint32(z); t.X >= max {
+		t.X = max - 1
+	}
+
 	return t
 }
 
